@@ -21,7 +21,7 @@ ASSUMPTIONS = ["monoband images when cbca is in the pipeline (cbca is documented
 GATES = {
     "asymmetric_masks": 2, "pipelines_with_aggregation": 1, "pipelines_with_confidence": 1, "pipelines_with_refinement": 1,
     "pipelines_with_filter": 1, "pipelines_with_filling": 1, "grids_on_both_sides": 1, "product_pairs_compared": 40,
-    "without_validation_compared": 5,
+    "without_validation_compared": 5, "pipelines_with_multiscale": 1,
 }
 VARS = ["disparity_map", "validity_mask", "confidence_measure", "interpolated_coeff"]
 
@@ -91,6 +91,25 @@ def run_case(case, ctx):
         dA, dB = (a, b), None
     desc = {"pipeline": keys, "params": {k: params[k] for k in keys}, "shape": [rows, cols], "bands": nb, "masks": [mk_a, mk_b],
             "grid": use_grid, "disp": [int(np.min(dA[0])), int(np.max(dA[1]))]}
+    multiscale = (not use_grid) and rng.random() < 0.3
+    if multiscale:
+        ms_key = pipes.keys_for([pipes.kind_of(k) for k in keys] + ["multiscale"])[-1]
+        keys = keys + [ms_key]
+        params[ms_key] = {"multiscale_method": "fixed_zoom_pyramid", "num_scales": 2, "scale_factor": 2, "marge": int(rng.integers(0, 3))}
+        a, b = [(-7, 5), (-6, 6), (1, 7), (-5, -1), (-3, 2)][int(rng.integers(0, 5))]
+        dA, dB = (a, b), None
+        rows, cols = max(rows, 16), max(cols, 20)
+        A, B = gen.stereo_pair(rng, rows, cols, tex, max_shift=3, bands=nb)
+        # the pyramid fills masked pixels from the valid pixels seen along 8 directions: layouts where a pixel sees no
+        # valid pixel at all (almost everything masked) are outside the domain of the multiscale step
+        mk_a = mk_a if mk_a in ("none", "sparse", "exotic", "border") else "sparse"
+        mk_b = mk_b if mk_b in ("none", "sparse", "exotic", "border") else "none"
+        ma, mb = gen.mask(rng, rows, cols, mk_a), gen.mask(rng, rows, cols, mk_b)
+        desc.update({"multiscale": True, "masks": [mk_a, mk_b], "disp": [a, b], "shape": [rows, cols], "pipeline": keys})
+        for k in keys:
+            if params[k].get("filter_method") == "median_for_intervals":
+                params[k] = {"filter_method": "median", "filter_size": 3}
+    ctx.gate("pipelines_with_multiscale", int(multiscale))
     pipe = pipes.build_pipe(keys, params)
     bands = ["r", "g", "b"] if nb == 3 else None
 
